@@ -13,7 +13,7 @@ BINARY_PROFILES = ["dev"]
 RULE = ("e2e-file: the REAL p2sh binary (dev profile, working tree) runs generated scripts. `fread`: open/read/read_line/read_to_string on a real temp file, or on stdin fed "
         "through a pipe by a writer that hands over one chunk per blocked read (scripted chunk sizes {1, 2, 4095, 4096, 4097, random}); results are printed as hex by the script. "
         "`fwrite`: open(path, mode) on an existing / missing file, a sequence of writes (byte, array, string; below and above the 8 KiB buffer), ending normal / flush / exit / "
-        "flush+exit; the file is read back after the process ended. The Lean driver gets the same abstract scenario and prints model (Model/FileRead.lean) ## spec "
+        "flush+exit; the file is read back after the process ended; `fwriten`: two to four such files open at the same time in one program, writes interleaved, ending normal / exit, some flushed. The Lean driver gets the same abstract scenario and prints model (Model/FileRead.lean) ## spec "
         "(prefix law / documented mode table, Spec/FileIo.lean). The model is the code as it is: a reverted repair shows up both as a model disagreement and as an oracle failure. non-trivial = at least one call returned data (fread) / the open succeeded (fwrite)")
 ASSUMPTIONS = ["a regular file read returns min(n, remaining) bytes; a pipe read returns what the writer has written so far, at most n (the reader axioms of Model/FileRead.Conforms)",
                "the pipe writer writes a chunk only once the reader is blocked in read(0) (observed through /proc/<pid>/syscall) and the previous chunk was drained (FIONREAD): "
@@ -106,6 +106,29 @@ def write_script(path, mode, writes, ending):
     if ending in ("exit", "flushexit"):
         src.append("  exit(0);\n")
     src.append("}\n")
+    return "".join(src)
+
+
+def write_script_n(paths, parts, ending):
+    """several writers open at the same time; writes go round-robin over the handles that opened"""
+    src = [HELPERS]
+    for i, (path, (mode, _ex, _ws, _fl)) in enumerate(zip(paths, parts)):
+        src.append("let f%d = open(\"%s\", \"%s\");\nif is_error(f%d) { println(\"open%d=E\"); } else { println(\"open%d=H\"); }\n" % (i, path, mode, i, i, i))
+    queues = [list(ws) for (_m, _e, ws, _f) in parts]
+    k = 0
+    while any(queues):
+        for i, q in enumerate(queues):
+            if q:
+                w = q.pop(0)
+                src.append("if !is_error(f%d) { let r%d = write(f%d, %s); if is_error(r%d) { println(\"w%d=E\"); } else { println(\"w%d={}\", r%d); } }\n"
+                           % (i, k, i, blob_expr(w), k, i, i, k))
+                k += 1
+    for i, (_m, _e, _ws, fl) in enumerate(parts):
+        if fl == "1":
+            src.append("if !is_error(f%d) { flush(f%d); }\n" % (i, i))
+    src.append("println(\"done\");\n")
+    if ending == "exit":
+        src.append("exit(0);\n")
     return "".join(src)
 
 
@@ -235,6 +258,37 @@ def run_case(exe, scratch, idx, line):
             else:
                 ftok = "file=missing"
             return ";".join([opened, "w=" + (".".join(ws_out) or "-"), ftok])
+        if t[0] == "fwriten":
+            ending = t[1]
+            parts = []
+            for part in t[2:]:
+                mode, ex, ws, fl = part.split(":")
+                parts.append((mode, ex, [] if ws == "-" else ws.split(","), fl))
+            paths = [os.path.join(d, "target%d.bin" % i) for i in range(len(parts))]
+            for path, (_m, ex, _ws, _f) in zip(paths, parts):
+                if ex != "missing":
+                    with open(path, "wb") as f:
+                        f.write(blob_bytes(ex))
+            with open(scriptp, "w") as f:
+                f.write(write_script_n(paths, parts, ending))
+            with open(outp, "wb") as fo, open(errp, "wb") as fe:
+                p = subprocess.run([exe, scriptp], stdin=subprocess.DEVNULL, stdout=fo, stderr=fe, timeout=60)
+            out = open(outp, "rb").read().decode("utf-8", "replace").splitlines()
+            err = open(errp, "rb").read().decode("utf-8", "replace")
+            if "panicked" in err:
+                return "PANIC " + err.strip().splitlines()[0][:120].encode().hex()
+            if p.returncode != 0:
+                return "ABORT(%d)" % p.returncode
+            toks = []
+            for i, path in enumerate(paths):
+                opened = [l for l in out if l.startswith("open%d=" % i)]
+                otok = "open=" + opened[0].split("=", 1)[1] if opened else ("open=rterr" if "Runtime error" in err else "open=?")
+                ws_out = [l.split("=", 1)[1] for l in out if l.startswith("w%d=" % i)]
+                if "done" not in out and otok == "open=H":
+                    ws_out.append("rterr" if "Runtime error" in err else "?")
+                ftok = "file=" + (open(path, "rb").read().hex() or "-") if os.path.exists(path) else "file=missing"
+                toks += [otok, "w=" + (".".join(ws_out) or "-"), ftok]
+            return ";".join(toks)
         return "bad-op"
     except subprocess.TimeoutExpired:
         return "HANG"
@@ -292,6 +346,8 @@ def classify(c):
         return "fread:length"
     if t[0] == "fwrite":
         return "fwrite:%s:%s:%s" % (t[1], "missing" if t[2] == "missing" else "existing", t[4])
+    if t[0] == "fwriten":
+        return "fwriten:%s" % t[1]
     return None
 
 
@@ -404,6 +460,17 @@ def cases(ctx):
                 for _ in range(ctx.scale(2, 30)):
                     ws = [rng.choice(blobs) for _ in range(rng.randint(1, 6))]
                     out.append(Case("fwrite %s %s %s %s" % (mode, ex, ",".join(ws), ending), ("write-random",)))
+    # ---- several writers open at once (each file must behave as if it were alone, also when the program ends through exit)
+    small = ["b65", "a10.3", "s1.0", "s3.5", "a100.9"]
+    for ending in ("normal", "exit"):
+        for _ in range(ctx.scale(14, 300)):
+            parts = []
+            for _k in range(rng.randint(2, 4)):
+                ws = [rng.choice(small if rng.random() < 0.7 else blobs) for _ in range(rng.randint(0, 3))]
+                parts.append("%s:%s:%s:%s" % (rng.choice("wax"), rng.choice(["missing", "missing", "a5.1"]), ",".join(ws) or "-", "1" if rng.random() < 0.25 else "0"))
+            out.append(Case("fwriten %s %s" % (ending, " ".join(parts)), ("write-several",)))
+    out.append(Case("fwriten exit w:missing:s1.0,b65:0 a:a5.1:s1.0:0 x:missing:a10.3:0", ("write-several",)))
+    out.append(Case("fwriten exit w:missing:s1.0:0 w:missing:s3.5:0", ("write-several",)))
     for ex in ("missing", "a5.1"):
         out.append(Case("fwrite r %s - normal" % ex, ("write-table",)))
         out.append(Case("fwrite q %s - normal" % ex, ("write-table",)))
